@@ -8,7 +8,9 @@ optional config scope around the outermost call and around inner links.  The rai
 original object `e`; the oracle compares what the caller catches (`e2`) with `e`.
 """
 import builtins
+import copy as copy_mod
 import inspect
+import re
 import sys
 import types
 
@@ -72,7 +74,10 @@ RULE = ('sweep: every BaseException subclass exported by builtins (69 names on 3
         'configurable body (mutation strstate), by a plain non-Gin frame above all '
         'configurables that re-raises, by the final caller before str() (generated; exhaustive '
         'sweep late-str: 2 __str__ kinds x 2 class shapes x 4 late-change sets x 6 link '
-        'shapes). Non-trivial = '
+        'shapes). Class hooks: user classes with a __setattr__ refusing every / dunder / other '
+        'names and with __init_subclass__(cls, *, code[=None], **kw) (generated; exhaustive '
+        'sweep class-hooks: 6 hook sets x 3 class shapes x 5 link shapes x plain / `from` '
+        'raise). Non-trivial = '
         'the original has a public data attribute besides args, or its constructor has required '
         'arguments, or >=2 configurables are on the stack. Distinct = distinct case JSON.')
 ASSUMPTIONS = [
@@ -120,8 +125,19 @@ ASSUMPTIONS = [
     'callable attributes (with_traceback, add_note, split, subgroup, derive) are not compared; '
     'for exception groups an `except* Leaf` clause that matches the original must run for the '
     'caught object and see the same leaf objects',
-    'user classes do not override __getattr__/__getattribute__/__setattr__/__reduce__ and have no '
-    'custom metaclass or __init_subclass__: the quantifier of C17 does not list them',
+    'user classes do not override __getattr__/__getattribute__/__reduce__ and have no custom '
+    'metaclass: the quantifier of C17 does not list them',
+    'user classes may define __setattr__ refusing assignment (every name / dunder names / other '
+    'names; their own code fills instances in through object.__setattr__): all of C17 is asserted '
+    'for them. For the first two kinds the case runs without config scopes and without add_note: '
+    'contextlib itself assigns exc.__traceback__ when an exception leaves a generator-based '
+    'context manager (gin.config_scope is one), and add_note assigns __notes__, so Python '
+    'replaces such an exception by the AttributeError regardless of Gin. The probe handlers skip '
+    'the changes the class refuses',
+    'user classes may define __init_subclass__ with an optional keyword (everything asserted) or '
+    'a REQUIRED keyword: no subclass can be derived for the latter, so the same class, data, '
+    'chaining and traceback are asserted, the message must still start with the original message, '
+    'but the extension naming the configurable and the scope is NOT required for that class',
 ]
 FLOORS = {
     'nontrivial': 0.5,
@@ -149,6 +165,11 @@ FLOORS = {
     'late:plain-frame': 0.01,
     'late:caller': 0.01,
     'user:str-reads-state': (0.1, 'user:generated'),
+    'user:setattr-refuses-all': (0.03, 'user:generated'),
+    'user:setattr-refuses-dunder': (0.03, 'user:generated'),
+    'user:setattr-refuses-public': (0.03, 'user:generated'),
+    'user:init-subclass-required': (0.04, 'user:generated'),
+    'user:init-subclass-optional': (0.04, 'user:generated'),
     'user:str-needs-field': (0.04, 'user:generated'),
     'str-state-changed-after-crossing': 0.01,
     'raise-from-None': 0.02,
@@ -372,6 +393,10 @@ def _user_spec(draw):
       'repr': draw(st.booleans()),
       'argv': [draw(_val) for _ in range(n)],
       'kwv': draw(_val),
+      # __setattr__ refusing assignment (to every name / to dunder names / to other names), and
+      # __init_subclass__ with a required / an optional keyword
+      'setattr': draw(st.sampled_from([None] * 9 + ['all', 'dunder', 'public'])),
+      'initsub': draw(st.sampled_from([None] * 8 + ['required', 'optional'])),
   }
 
 
@@ -450,6 +475,15 @@ def render_user(spec):
     kw = (', kw=self.kw' if spec['kwonly'] else '')
     body += ['  def derive(self, excs):',
              f'    return UExc(self.message, excs{", " + extra if extra else ""}{kw})']
+  refuse = {'all': 'True', 'dunder': "name.startswith('__')",
+            'public': "not name.startswith('__')"}.get(spec.get('setattr'))
+  if refuse:
+    body += ['  def __setattr__(self, name, value):', f'    if {refuse}:',
+             "      raise AttributeError('immutable')", '    super().__setattr__(name, value)']
+  if spec.get('initsub'):
+    kw = 'code' if spec['initsub'] == 'required' else 'code=None'
+    body += [f'  def __init_subclass__(cls, *, {kw}, **kwargs):',
+             '    super().__init_subclass__(**kwargs)', '    cls.code = code']
   if len(body) == 1:
     body.append('  pass')
   leaf = 'KeyboardInterrupt()' if spec['bases'] == ['BaseExceptionGroup'] else "KeyError('k')"
@@ -468,7 +502,29 @@ def render_user(spec):
     post.append('e.line = None')
   if not inside:
     post = [a.replace('self.', 'e.', 1) for a in assigns] + post
+  if spec.get('setattr') in ('all', 'public'):
+    # the class's own code (and the raise site) fill the instance in behind its __setattr__
+    fix = lambda l: re.sub(r"^(\s*)(self|e)\.(\w+) = (.*)$", r"\1object.__setattr__(\2, '\3', \4)", l)
+    body, post = [fix(l) for l in body], [fix(l) for l in post]
   return '\n'.join(body) + '\n', ctor, post
+
+
+def refuses_dunder(exc):
+  return bool(exc.get('user')) and exc.get('setattr') in ('all', 'dunder')
+
+
+def normalise(case):
+  """Classes that refuse `exc.__traceback__ = ...` cannot pass through ANY generator-based
+  context manager (contextlib itself assigns that attribute) nor take add_note(): for them the
+  case runs without scopes and notes.  That is Python's doing, not Gin's."""
+  if not refuses_dunder(case['exc']):
+    return case
+  case = copy_mod.deepcopy(case)
+  case['scope'] = ''
+  case['note'] = False
+  for link in case['links']:
+    link['scope'] = ''
+  return case
 
 
 # ----------------------------------------------------------------------------- chains
@@ -693,7 +749,35 @@ def sweep_late_str(tier):
   return cases, True
 
 
-SWEEPS = {'builtin-classes': sweep_builtins, 'mi-ordered-pairs': sweep_mi_pairs,
+def sweep_class_hooks(tier):
+  """User classes with a refusing __setattr__ or an __init_subclass__ hook."""
+  del tier
+  call, ref = {'kind': 'call', 'scope': ''}, {'kind': 'ref', 'scope': 'zm'}
+  body = {'kind': 'catch', 'scope': '', 'mut': ['args', 'dict', 'strstate'], 'reraise': 'bare'}
+  hooks = [dict(setattr='all'), dict(setattr='dunder'), dict(setattr='public'),
+           dict(initsub='required'), dict(initsub='optional'),
+           dict(setattr='public', initsub='optional')]
+  shapes = [dict(bases=['Exception']),
+            dict(bases=['OSError'], slots=['sa'], attrs=[['detail', 'some text']], props=['slot']),
+            dict(bases=['ExceptionGroup'], group=True, new='pass', init=None)]
+  cases = []
+  for hook in hooks:
+    for shape in shapes:
+      argv = (7,) if shape.get('group') else ('u', 3)
+      kw = dict(init='all', store=True)
+      kw.update(shape)
+      kw.update(hook)
+      for n, links in enumerate(([], [call], [body], [call, ref], [body, call])):
+        for cause in (False, True):
+          cases.append({'exc': plain_user_spec(argv=argv, **kw), 'site': ('fn', 'ctor')[n % 2],
+                        'how': 'configurable', 'mhow': 'register', 'links': links, 'inter': 'fn',
+                        'scope': ('', 'zsa/zsb')[n % 2], 'cause': cause, 'note': bool(n % 2),
+                        'late': [[], ['caller'], ['plain']][n % 3], 'origin': 'sweep'})
+  return cases, True
+
+
+SWEEPS = {'class-hooks': sweep_class_hooks,
+          'builtin-classes': sweep_builtins, 'mi-ordered-pairs': sweep_mi_pairs,
           'brace-reprs': sweep_reprs, 'signatures': sweep_signatures, 'late-str': sweep_late_str}
 
 
@@ -842,9 +926,14 @@ def mutate(e, kinds, level):
   def stored_outside_dict(name):
     return isinstance(inspect.getattr_static(type(e), name, None), _C_FIELD)
 
+  # a class may refuse assignment (__setattr__ raising AttributeError): a handler cannot
+  # enrich it then, and the probe's handlers just carry on
   if 'args' in kinds:
-    e.args = tuple(e.args) + (f'added-by-level-{level}',)
-    applied.add('args')
+    try:
+      e.args = tuple(e.args) + (f'added-by-level-{level}',)
+      applied.add('args')
+    except AttributeError:
+      pass
   if 'field' in kinds:
     for name, value in FIELD_MUTATIONS:
       if stored_outside_dict(name):
@@ -856,21 +945,30 @@ def mutate(e, kinds, level):
   if 'slot' in kinds:
     for name in ('sa', 'sb'):
       if stored_outside_dict(name):
-        setattr(e, name, f'enriched-{name}-by-level-{level}')
-        applied.add('slot')
+        try:
+          setattr(e, name, f'enriched-{name}-by-level-{level}')
+          applied.add('slot')
+        except AttributeError:
+          pass
   if 'dict' in kinds:
-    e.enriched = ['by-level', level]
-    applied.add('dict')
-  if 'strstate' in kinds:
-    annotate(e, f'level-{level}')
+    try:
+      e.enriched = ['by-level', level]
+      applied.add('dict')
+    except AttributeError:
+      pass
+  if 'strstate' in kinds and annotate(e, f'level-{level}'):
     applied.add('strstate')
   return sorted(applied)
 
 
 def annotate(e, where):
   """Changes the instance state the generated state-reading __str__ methods look at."""
-  e.annot = f'annotated-by-{where}'
-  e.line = 7
+  try:
+    e.annot = f'annotated-by-{where}'
+    e.line = 7
+    return True
+  except AttributeError:      # the class refuses assignment
+    return False
 
 
 def safe_str(e):
@@ -960,7 +1058,11 @@ def make_twin(exc, cls_src, make_src, sample):
 
 # ----------------------------------------------------------------------------- the check
 def check_case(case):
+  case = normalise(case)
   exc = case['exc']
+  # the proxy subclass cannot be built for a class whose __init_subclass__ has a required
+  # keyword: the original object may then arrive unchanged, without the message extension
+  trailer_optional = bool(exc.get('user')) and exc.get('initsub') == 'required'
   mod = types.ModuleType(PROBE)
   mod.__file__ = PROBE_FILE
   sys.modules[PROBE] = mod
@@ -1114,9 +1216,9 @@ def check_case(case):
                 lambda: f'{where}: str(original)={ref_str!r}; str(caught)={got_str!r}\n'
                         f'{describe()}')
         ext = got_str[len(ref_str):]
-        require(ref_name in ext, 'configurable-not-named',
+        require(trailer_optional or ref_name in ext, 'configurable-not-named',
                 lambda: f'{where}: extension {ext!r} does not name {ref_name!r}\n{describe()}')
-        if ref_scope:
+        if ref_scope and not trailer_optional:
           require(ref_scope in ext, 'scope-not-named',
                   lambda: f'{where}: extension {ext!r} does not name the active scope '
                           f'{ref_scope!r}\n{describe()}')
@@ -1166,7 +1268,7 @@ def check_case(case):
             lambda: f"{where}: the original now renders {base!r}; the caught object renders "
                     f"{late['got']!r}\n{describe()}")
     ext = late['got'][len(base):]
-    for nm, sc in named:
+    for nm, sc in ([] if trailer_optional else named):
       require(nm in ext and (not sc or sc in ext), 'late-message-trailer',
               lambda: f'{where}: extension {ext!r} does not name {nm!r} / scope {sc!r}\n'
                       f'{describe()}')
@@ -1192,8 +1294,8 @@ def check_case(case):
   check_late(late_message(e2), 'at the caller', named)
   if 'caller' in case.get('late', ()):
     # the final caller completes the exception before rendering it
-    annotate(e2, 'caller')
-    labels.add('late:caller')
+    if annotate(e2, 'caller'):
+      labels.add('late:caller')
     check_late(late_message(e2), 'at the caller (after its changes)', named)
   if 'plain' in case.get('late', ()):
     labels.add('late:plain-frame')
@@ -1315,6 +1417,10 @@ def check_case(case):
       labels.add('user:class-attrs')
     if exc['str']:
       labels.add('user:custom-str')
+    if exc.get('setattr'):
+      labels.add('user:setattr-refuses-' + exc['setattr'])
+    if exc.get('initsub'):
+      labels.add('user:init-subclass-' + exc['initsub'])
     if exc['str'] == 'state':
       labels.add('user:str-reads-state')
     if exc['str'] == 'needs':
